@@ -86,8 +86,7 @@ GenPlan(t, m, old) == GenFrom(t, m, GenInit, 1, old)
 EmptyRun(t, start) == [ok |-> TRUE, err |-> "", pos |-> start, vals |-> [j \in 1..Len(t.fields) |-> NoVal], sizes |-> [j \in 1..Len(t.fields) |-> -1],
                     unit |-> << >>, rem |-> 0, utype |-> "", fl |-> {}]
 Fail(s, e) == [s EXCEPT !.ok = FALSE, !.err = e]
-CtxAt(t, s) == LET done == {j \in 1..Len(t.fields) : s.vals[j] # NoVal} IN
-            [nm \in {t.fields[j].name : j \in done} |-> s.vals[SetMax({j \in done : t.fields[j].name = nm})]]
+CtxAt(t, s) == CtxFields(t, s.vals)      \* the members read so far, anonymous members folded in (Codec.tla)
 
 RECURSIVE ExecItems(_, _, _, _, _, _, _, _)
 ExecItems(t, m, kc, items, k, inp, p, s) ==
